@@ -1,10 +1,12 @@
 /-
   C16 — Range dimensions and coordinate lookup are exact.
-  Property theorems only (helper lemmas live in Proofs/Lemmas/Axis.lean, Proofs/Lemmas/NDArr.lean).
+  Property theorems only (helper lemmas live in Proofs/Lemmas/Axis.lean, Proofs/Lemmas/NDArr.lean,
+  Proofs/Lemmas/AxisKernel.lean).
 -/
 import SoundeventModel.Axis
 import Proofs.Lemmas.Axis
 import Proofs.Lemmas.NDArr
+import Proofs.Lemmas.AxisKernel
 namespace SE.Proofs.C16
 open SE SE.Axis
 
@@ -324,6 +326,266 @@ theorem C16_set_rejects {α} [Inhabited α] (a : NDArr α) (axes : List (List Ra
   · intro ix w h; simp [setAt, valueFits, h]
   · intro ix w h; simp [setAt, valueFits, h]
 
+/-! ## the kernels (tied to the current source for all inputs by symbolic traces, Tie 1b) -/
+
+/-- `create_range_dim`, `create_time_range`, `create_frequency_range` *are* their kernels (step
+    selection, the one `np.arange` call, the trailing-point guard and threshold, the attribute)
+    followed by `np.arange` -/
+theorem C16_range_kernel (start stop : Rat) :
+    (∀ step (size : Option Int), createRangeDim start stop step size
+        = (rangeKernel start stop step (size.map (fun (n : Int) => (n : Rat)))).map RangePlan.eval) ∧
+    (∀ step sr, createTimeRange start stop step sr = (timeKernel start stop step sr).map RangePlan.eval) ∧
+    (∀ step, createFrequencyRange start stop step = (freqKernel start stop step).map RangePlan.eval) := by
+  refine ⟨?_, ?_, ?_⟩
+  · intro step size
+    cases step with
+    | some s => simpa [rangeKernel] using createRangeDim_some start stop s size
+    | none =>
+      cases size with
+      | none => simp [createRangeDim, rangeKernel, Except.map]
+      | some n =>
+        by_cases hn : n = 0
+        · subst hn; simp [createRangeDim, rangeKernel, Except.map]
+        · have hn' : ¬ ((n : Rat) = 0) := fun h => hn ((intCast_eq_zero_iff n).mp h)
+          have hk : rangeKernel start stop none (Option.map (fun (n : Int) => (n : Rat)) (some n))
+              = rangePlanOf start stop ((stop - start) / (n : Rat)) := by simp [rangeKernel, hn']
+          rw [hk]
+          by_cases hs : (stop - start) / (n : Rat) = 0
+          · rw [hs, rangePlanOf_zero]; simp [createRangeDim, hn, hs]
+          · rw [rangePlanOf_eval _ _ _ hs]; simp [createRangeDim, hn, hs]
+  · intro step sr
+    cases step with
+    | some s => simpa [createTimeRange, timeKernel] using createRangeDim_some start stop s none
+    | none =>
+      cases sr with
+      | none => simp [createTimeRange, timeKernel, Except.map]
+      | some r =>
+        by_cases hr : r = 0
+        · subst hr; simp [createTimeRange, timeKernel, Except.map]
+        · simpa [createTimeRange, timeKernel, hr] using createRangeDim_some start stop (1 / r) none
+  · intro step
+    simpa [createFrequencyRange, freqKernel] using createRangeDim_some start stop step none
+
+/-- `get_coord_index` *is* its kernel (range test against `get_dim_range`, `KeyError` / clamp,
+    `get_slice_bound(v, "right") - 1`) evaluated on the axis -/
+theorem C16_index_kernel (coords : List Rat) (v : Rat) (raise : Bool) :
+    coordIndex coords v raise =
+      match axisRange coords with
+      | some (lo, hi) => (indexKernel lo hi v raise).map (fun p => (p.eval coords).toNat)
+      | none => .error .invalid := by
+  cases h : axisRange coords with
+  | some r => obtain ⟨lo, hi⟩ := r; exact coordIndex_of_range coords lo hi v raise h
+  | none =>
+    simp only [axisRange] at h
+    simp only [coordIndex]
+    split at h
+    · simp at h
+    · split <;> simp_all
+
+/-- the indexer of `set_value_at_pos` *is* its kernel evaluated on the axes: when `ranges[k]` is
+    the range of axis `k`, building the indexer from the lookups is building the plan and evaluating it -/
+theorem C16_indexer_kernel (axes : List (List Rat)) (ranges : List (Rat × Rat))
+    (hr : axes.map axisRange = ranges.map some) (query : List (Nat × Rat)) (ixp : IndexerPlan) :
+    buildIndexer axes query (ixp.eval axes) = (indexerKernel ranges query ixp).map (IndexerPlan.eval axes) := by
+  induction query generalizing ixp with
+  | nil => simp [buildIndexer, indexerKernel, Except.map]
+  | cons kq rest ih =>
+    obtain ⟨k, q⟩ := kq
+    have hk : (axes.map axisRange)[k]? = (ranges.map some)[k]? := by rw [hr]
+    simp only [List.getElem?_map] at hk
+    simp only [buildIndexer, indexerKernel]
+    cases hax : axes[k]? with
+    | none =>
+      rw [hax] at hk
+      cases hrk : ranges[k]? with
+      | none => simp [Except.map]
+      | some r => rw [hrk] at hk; simp at hk
+    | some coords =>
+      rw [hax] at hk
+      cases hrk : ranges[k]? with
+      | none => rw [hrk] at hk; simp at hk
+      | some r =>
+        obtain ⟨lo, hi⟩ := r
+        rw [hrk] at hk
+        have hrange : axisRange coords = some (lo, hi) := by simpa using hk
+        simp only [coordIndex_of_range coords lo hi q true hrange]
+        cases hp : indexKernel lo hi q true with
+        | error e => simp [Except.map]
+        | ok p =>
+          simp only [Except.map]
+          rw [← eval_set axes ixp k p coords hax]
+          exact ih _
+
+/-- … hence `set_value_at_pos` is: the plan of `setKernel` (or its error), evaluated on the axes,
+    then the write -/
+theorem C16_set_kernel {α} [Inhabited α] (a : NDArr α) (axes : List (List Rat)) (ranges : List (Rat × Rat))
+    (hr : axes.map axisRange = ranges.map some) (hnd : a.shape.length = axes.length)
+    (query : List (Nat × Rat)) (v : Val α) :
+    setValueAtPos a axes query v =
+      match setKernel ranges query with
+      | .error e => .error e
+      | .ok ixp => setAt a (ixp.eval axes) v := by
+  have hlen : ranges.length = a.shape.length := by
+    have := congrArg List.length hr
+    simp at this; omega
+  have h0 : a.shape.map (fun _ => (none : Option Nat)) = IndexerPlan.eval axes (ranges.map (fun _ => none)) := by
+    simp only [IndexerPlan.eval, List.map_map]
+    apply List.ext_getElem
+    · simp [hlen]
+    · intro i h1 h2; simp
+  simp only [setValueAtPos, setKernel, h0, C16_indexer_kernel axes ranges hr]
+  cases indexerKernel ranges query (ranges.map (fun _ => none)) <;> simp [Except.map]
+
+/-! ## `set_value_at_pos`, end to end -/
+
+/-- the multi-index `m` is hit by the query entry `(k, q)`: its component on axis `k` is the
+    lookup of `q` on that axis -/
+def Hit (axes : List (List Rat)) (m : List Nat) (kq : Nat × Rat) : Prop :=
+  ∃ coords i, axes[kq.1]? = some coords ∧ coordIndex coords kq.2 true = .ok i ∧ m[kq.1]? = some i
+
+/-- `set_value_at_pos`, end to end: after a successful call on an array with one axis per
+    dimension and a query that names every axis at most once, an element holds the value (for an
+    array value: its element at the broadcast position inside the slice) exactly when its
+    multi-index is hit by every query entry; every other element is unchanged.  On increasing axes
+    "hit by `(k, q)`" means: `m[k]` is the one index `i` with `coords[i] ≤ q`, and `q < coords[i+1]`
+    when there is a next coordinate. -/
+theorem C16_set_cell {α} [Inhabited α] (a a' : NDArr α) (axes : List (List Rat))
+    (query : List (Nat × Rat)) (v : Val α) (hwf : a.data.length = size a.shape)
+    (hnd : (query.map Prod.fst).Nodup) (hq : ∀ kq ∈ query, kq.1 < a.shape.length)
+    (h : setValueAtPos a axes query v = .ok a') :
+    a'.shape = a.shape ∧
+    (∀ m, inBounds a.shape m = true →
+      ((∀ kq ∈ query, Hit axes m kq) → ∃ ix, a'.get m = v.get (freePart ix a.shape) (freePart ix m)) ∧
+      ((¬ ∀ kq ∈ query, Hit axes m kq) → a'.get m = a.get m)) ∧
+    (∀ m kq, kq ∈ query → ∀ coords, axes[kq.1]? = some coords → Sorted coords →
+      (Hit axes m kq ↔ ∃ i, ∃ hi : i < coords.length, m[kq.1]? = some i ∧ coords[i] ≤ kq.2 ∧
+          ∀ h : i + 1 < coords.length, kq.2 < coords[i + 1])) := by
+  obtain ⟨ix, hset, hlen, hqs, hfree⟩ := C16_set_value_at_pos a a' axes query v hnd h
+  obtain ⟨hshape, _, hget⟩ := C16_set_exact a a' ix v hwf hset
+  have haddr : ∀ m, inBounds a.shape m = true → (addressed ix m = true ↔ ∀ kq ∈ query, Hit axes m kq) := by
+    intro m hm
+    have hml : ix.length = m.length := by rw [hlen, inBounds_length hm]
+    rw [addressed_iff ix m hml]
+    constructor
+    · intro hall kq hmem
+      obtain ⟨coords, i, h1, h2, h3⟩ := hqs kq.1 kq.2 hmem
+      exact ⟨coords, i, h1, h2, hall _ _ (h3 (hq kq hmem))⟩
+    · intro hall k i hk
+      have hkl : k < a.shape.length := by
+        have : k < ix.length := by
+          rcases Nat.lt_or_ge k ix.length with h | h
+          · exact h
+          · rw [List.getElem?_eq_none h] at hk; simp at hk
+        omega
+      by_cases hex : ∃ q, (k, q) ∈ query
+      · obtain ⟨q, hmem⟩ := hex
+        obtain ⟨coords, i', h1, h2, h3⟩ := hqs k q hmem
+        obtain ⟨coords', i'', h1', h2', h3'⟩ := hall (k, q) hmem
+        have hi' : ix[k]? = some (some i') := h3 hkl
+        rw [hi'] at hk
+        have : i' = i := by simpa using hk
+        subst this
+        simp only at h1' h2' h3'
+        rw [h1] at h1'
+        cases h1'
+        rw [h2] at h2'
+        cases h2'
+        exact h3'
+      · have : ix[k]? = some none := hfree k hkl (fun q hm => hex ⟨q, hm⟩)
+        rw [this] at hk; simp at hk
+  refine ⟨hshape, ?_, ?_⟩
+  · intro m hm
+    refine ⟨fun hall => ⟨ix, ?_⟩, fun hnot => ?_⟩
+    · rw [hget m hm, if_pos ((haddr m hm).mpr hall)]
+    · rw [hget m hm, if_neg (fun hc => hnot ((haddr m hm).mp hc))]
+  · intro m kq hmem coords hax hs
+    obtain ⟨coords', i0, h1, h2, _⟩ := hqs kq.1 kq.2 hmem
+    rw [hax] at h1
+    cases h1
+    have hne : coords ≠ [] := by
+      intro he; subst he; simp [coordIndex, listMin] at h2
+    -- the lookup succeeded with `raise = true`: the position is inside the axis range
+    have hin : coords.head hne ≤ kq.2 ∧ kq.2 ≤ coords.getLast hne := by
+      by_cases hout : kq.2 < coords.head hne ∨ coords.getLast hne < kq.2
+      · have := (C16_outside coords kq.2 hs hne hout).1
+        rw [this] at h2; simp at h2
+      · constructor <;> grind
+    obtain ⟨i, hi, heq, hle, hnext, huniq⟩ := C16_index_unique coords kq.2 true hs hne hin.1 hin.2
+    constructor
+    · rintro ⟨c2, i2, h1', h2', h3'⟩
+      rw [hax] at h1'
+      cases h1'
+      rw [heq] at h2'
+      have e : i = i2 := by simpa using h2'
+      rw [← e] at h3'
+      exact ⟨i, hi, h3', hle, hnext⟩
+    · rintro ⟨j, hj, hmj, hlej, hnextj⟩
+      have := huniq j hj hlej hnextj
+      subst this
+      exact ⟨coords, j, hax, heq, hmj⟩
+
+/-! ## the trailing-point rule under binary64 rounding -/
+
+/-- `create_range_dim`'s rule is `dropTrailingAt` at the exact threshold -/
+theorem C16_rule_at (stop step : Rat) (cs : List Rat) :
+    dropTrailing stop step cs = dropTrailingAt (stop - step / 2) cs := rfl
+
+/-- why the rule makes the count exact for decimal steps: for a request of `n` whole steps let
+    `np.arange` have returned `n` or `n + 1` points (its internal ceiling may have been pushed either
+    way by rounding), each — like the computed threshold — less than a quarter step off its exact
+    value.  Then the rule leaves exactly the first `n` points.  The hypothesis is the executable
+    `arangeContract`, evaluated at run time on what numpy returned. -/
+theorem C16_count_robust (start step δ thr : Rat) (n : Nat) (cs : List Rat)
+    (hc : arangeContract start step δ thr n cs = true) :
+    dropTrailingAt thr cs = cs.take n ∧ (dropTrailingAt thr cs).length = n := by
+  simp only [arangeContract, Bool.and_eq_true, decide_eq_true_eq, Bool.or_eq_true, beq_iff_eq,
+    List.all_eq_true, List.mem_range] at hc
+  obtain ⟨⟨⟨⟨hs, hδ⟩, hlen⟩, hpts⟩, hthr⟩ := hc
+  have habs : ∀ x : Rat, absR x ≤ δ → -δ ≤ x ∧ x ≤ δ := by
+    intro x hx; simp only [absR] at hx; split at hx <;> constructor <;> grind
+  have hthr' := habs _ hthr
+  have key : dropTrailingAt thr cs = cs.take n := by
+    rcases hlen with hl | hl
+    · -- `n` points: the last one is about `stop - step`, below the threshold
+      rw [← hl, List.take_length]
+      simp only [dropTrailingAt]
+      cases hlast : cs.getLast? with
+      | none => rfl
+      | some c =>
+        have hne : cs ≠ [] := by intro he; subst he; simp at hlast
+        have hpos : 0 < cs.length := List.length_pos_iff.mpr hne
+        have hc' : c = cs.getD (cs.length - 1) 0 := by
+          rw [List.getLast?_eq_getElem?] at hlast
+          simp [List.getD, hlast]
+        have hp := habs _ (hpts (cs.length - 1) (by omega))
+        rw [← hc'] at hp
+        have hcast : ((cs.length - 1 : Nat) : Rat) = (n : Rat) - 1 := by
+          rw [natCast_pred hpos, hl]
+        rw [hcast] at hp
+        have : ¬ c ≥ thr := by grind
+        simp [this]
+    · -- `n + 1` points: the last one is about `stop`, above the threshold
+      simp only [dropTrailingAt]
+      cases hlast : cs.getLast? with
+      | none =>
+        have : cs = [] := by simpa using hlast
+        subst this; simp at hl
+      | some c =>
+        have hc' : c = cs.getD (cs.length - 1) 0 := by
+          rw [List.getLast?_eq_getElem?] at hlast
+          simp [List.getD, hlast]
+        have hp := habs _ (hpts (cs.length - 1) (by omega))
+        rw [← hc'] at hp
+        have hcast : ((cs.length - 1 : Nat) : Rat) = (n : Rat) := by
+          congr 1; omega
+        rw [hcast] at hp
+        have : c ≥ thr := by grind
+        simp only [this, if_true]
+        rw [List.dropLast_eq_take, hl]; simp
+  refine ⟨key, ?_⟩
+  rw [key, List.length_take]
+  rcases hlen with hl | hl <;> omega
+
 -- non-vacuity: concrete instances (hypotheses satisfiable, both branches taken)
 example : rangeCoords 0 1 (1/4) = [0, 1/4, 1/2, 3/4] := by decide +kernel
 example : rangeCoords 0 (5/4) 1 = [0] := by decide +kernel            -- upper half-step point dropped
@@ -340,5 +602,21 @@ example : setValueAtPos (⟨[2, 3], [0, 0, 0, 0, 0, 0]⟩ : NDArr Rat) [[0, 1], 
     (.arr ⟨[3], [1, 2, 3]⟩) = .ok ⟨[2, 3], [0, 0, 0, 1, 2, 3]⟩ := by decide +kernel
 example : setValueAtPos (⟨[2, 3], [0, 0, 0, 0, 0, 0]⟩ : NDArr Rat) [[0, 1], [0, 1, 2]] [(1, 3/2), (0, 0)]
     (.scalar 7) = .ok ⟨[2, 3], [0, 7, 0, 0, 0, 0]⟩ := by decide +kernel
+example : rangeKernel 0 1 none (some 4) = .ok ⟨0, 1, 1/4, false, 1/4⟩ := by decide +kernel
+example : rangeKernel 0 1 (some (1/3)) none = .ok ⟨0, 1, 1/3, false, 1/3⟩ := by decide +kernel
+example : rangeKernel 0 (5/4) (some 1) none = .ok ⟨0, 5/4, 1, true, 1⟩ := by decide +kernel   -- the `[:-1]` branch
+example : timeKernel 0 1 none (some 0) = .error .zerodiv := by decide +kernel
+example : axisRange [0, 1, 3] = some (0, 3) := by decide +kernel
+example : indexKernel 0 3 2 true = .ok (.bound true 2 (-1)) := by decide +kernel
+example : setKernel [(0, 1), (0, 2)] [(1, 3/2), (0, 0)]
+    = .ok [some (0, .bound true 0 (-1)), some (1, .bound true (3/2) (-1))] := by decide +kernel
+example : setKernel [(0, 1), (0, 2)] [(1, 5/2)] = .error .key := by decide +kernel
+example : [[0, 1], [0, 1, 2]].map axisRange = [(0, 1), ((0 : Rat), (2 : Rat))].map some := by decide +kernel
+-- `C16_count_robust`: arange pushed one point too far (n = 3, four points, the last a hair below stop) …
+example : arangeContract 0 (1/10) (1/1000) (1/4) 3 [0, 1/10, 1/5, 2999/10000] = true := by decide +kernel
+example : dropTrailingAt (1/4) [0, 1/10, 1/5, 2999/10000] = [0, 1/10, 1/5] := by decide +kernel
+-- … and not pushed (three points)
+example : arangeContract 0 (1/10) (1/1000) (1/4) 3 [0, 1/10, 2001/10000] = true := by decide +kernel
+example : dropTrailingAt (1/4) [0, 1/10, 2001/10000] = [0, 1/10, 2001/10000] := by decide +kernel
 
 end SE.Proofs.C16
